@@ -76,8 +76,11 @@ def render_stmt(st):
             if ln.get("photos"):
                 toks.append("PHOTOS")
             toks.append(ln["model"])
+            if ln.get("wrap") and ln["params"]:
+                out.append("  " + " ".join(toks) + "".join("\n      " + p for p in ln["params"]) + "\n  ;")
+                continue
             toks += list(ln["params"])
-            out.append("  " + " ".join(toks) + ";")
+            out.append("  " + " ".join(toks) + (" ;" if ln.get("space_before_semicolon") else ";"))
         out.append("Enddecay")
         return "\n".join(out)
     if k == "ModelAlias":
